@@ -13,6 +13,7 @@ import (
 
 	"verifmc/evid"
 	"verifmc/explore"
+	"verifmc/hx"
 	"verifmc/vrt"
 )
 
@@ -27,6 +28,7 @@ type event struct {
 }
 
 type ledger struct {
+	cell      hx.Cell
 	events    []event
 	cancelled map[string]bool // thread name -> its context was cancelled
 	closed    bool
@@ -34,7 +36,7 @@ type ledger struct {
 
 func led(x *vrt.Exec) *ledger { return x.Data.(*ledger) }
 
-func (l *ledger) add(e event) { l.events = append(l.events, e) }
+func (l *ledger) add(e event) { l.cell.Touch(); l.events = append(l.events, e) }
 
 func errStr(err error) string {
 	if err == nil {
@@ -67,7 +69,7 @@ func hubScenario(c hubCfg, pb int) *explore.Scenario {
 		ctxs := map[string]context.Context{}
 		cancels := map[string]context.CancelFunc{}
 		mkctx := func(name string) context.Context {
-			ctx, cf := context.WithCancel(context.Background())
+			ctx, cf := hx.WithCancel(context.Background())
 			ctxs[name], cancels[name] = ctx, cf
 			return ctx
 		}
